@@ -44,6 +44,11 @@ CLAIMS = {
    ref="§4 C18",
    note="Lock identity is by mutex field name within a function (path-insensitive about which object); Go memory model assumed; the task-graph wait algorithm itself is not decided.",
    technique="guarded-by inference from declarations + lock-held dominance + guard-edge/must-pass path rules on SSA"),
+ "C10": dict(
+   text="Decides the guard structure of ignore directives on every path: match requires file (and line) equality and a case-folded glob match; reason-less directives never become ignores (linter and U1000) and are errors in the compile category; 'ignored' is set only on the true edge of match; the unmatched-directive problem only for unmatched line ignores naming an enabled check, never U1000; directive and problem positions come from the same position function and file set; U1000 uses the same name predicate as the linter. Structural necessary conditions; comment attachment (ast.CommentMap) and glob semantics are trusted.",
+   ref="§4 C10",
+   note="Trusts path/filepath.Match and ast.NewCommentMap; 'same predicate' is decided as 'filepath.Match on lower-cased operands' at both sites.",
+   technique="guard-edge (must-pass-through-edge) analysis and value-origin checks on SSA"),
 }
 
 NOT_APPLICABLE = {
